@@ -253,6 +253,101 @@ async fn scenarios() -> Vec<String> {
         settle().await;
         rec!("s21", "spawnWith", "detach,call", vec![call(&a).await]);
     }
+    // ---- join futures as first-class values: created, polled, dropped independently of the owner
+    {
+        // consume_sync: stop, create the join future, drop the owner, then await the future
+        let o = Ctr::default().spawn_owning();
+        settle().await;
+        let r = match o.consume_sync() {
+            Ok(f) => match tmo(f).await {
+                Some(Some(_)) => "joinSome",
+                Some(None) => "joinNone",
+                None => "joinHang",
+            },
+            Err(_) => "consumeErr",
+        };
+        rec!("s22", "spawnOwning", "stop,joinCreate,dropOwner,joinAwait", vec![r]);
+    }
+    {
+        // a join future polled once (pending) and dropped, e.g. a join with a timeout
+        let mut o = Ctr::default().spawn_owning();
+        let a = o.to_addr();
+        settle().await;
+        let mut f = o.join();
+        let polled = futures::poll!(&mut f).is_pending();
+        drop(f);
+        settle().await;
+        let c = call(&a).await;
+        rec!("s23", "spawnOwning", "joinCreate,joinPoll,joinDrop,call", vec![if polled { "joinPending" } else { "joinReady" }, c]);
+    }
+    {
+        // the same, then stop and join again: the task handle went with the dropped future
+        let mut o = Ctr::default().spawn_owning();
+        let mut a = o.to_addr();
+        settle().await;
+        let mut f = o.join();
+        let polled = futures::poll!(&mut f).is_pending();
+        drop(f);
+        settle().await;
+        let c = call(&a).await;
+        a.stop().ok();
+        settle().await;
+        let j = join(&mut o).await;
+        rec!("s24", "spawnOwning", "joinCreate,joinPoll,joinDrop,call,stop,join", vec![if polled { "joinPending" } else { "joinReady" }, c, j]);
+    }
+    {
+        // a join future created but never polled, owner dropped, future dropped
+        let mut o = Ctr::default().spawn_owning();
+        let a = o.to_addr();
+        let f = o.join();
+        drop(o);
+        settle().await;
+        let c1 = call(&a).await;
+        drop(f);
+        settle().await;
+        let c2 = call(&a).await;
+        rec!("s25", "spawnOwning", "joinCreate,dropOwner,call,joinDrop,call", vec![c1, c2]);
+    }
+    {
+        // a join future created but never polled, owner detached, then stop and await the future
+        let mut o = Ctr::default().spawn_owning();
+        let f = o.join();
+        let mut a = o.detach();
+        settle().await;
+        let c = call(&a).await;
+        a.stop().ok();
+        let r = match tmo(f).await {
+            Some(Some(_)) => "joinSome",
+            Some(None) => "joinNone",
+            None => "joinHang",
+        };
+        rec!("s26", "spawnOwning", "joinCreate,detach,call,stop,joinAwait", vec![c, r]);
+    }
+    {
+        // unpolled join future dropped while the owner lives on; then the usual stop + join
+        let mut o = Ctr::default().spawn_owning();
+        let mut a = o.to_addr();
+        let f = o.join();
+        drop(f);
+        settle().await;
+        let c = call(&a).await;
+        a.stop().ok();
+        let j = join(&mut o).await;
+        rec!("s27", "spawnOwning", "joinCreate,joinDrop,call,stop,join", vec![c, j]);
+    }
+    {
+        // spawn_with: the caller owns the ActorHandle; polled join future dropped
+        use hannibal::spawner::SpawnableWith;
+        let (a, mut h) = Ctr::default().spawn_with::<DefaultSpawner>();
+        settle().await;
+        let mut f = h.join();
+        let polled = futures::poll!(&mut f).is_pending();
+        drop(f);
+        drop(h);
+        settle().await;
+        let c = call(&a).await;
+        rec!("s28", "spawnWith", "joinCreate,joinPoll,joinDrop,dropOwner,call", vec![if polled { "joinPending" } else { "joinReady" }, c]);
+    }
     // ---- finite stream: ends with the stream, on every runtime
     {
         let mut o = Ctr::default().spawn_owning_on_stream(futures::stream::iter(0..3u32)).unwrap();
